@@ -8,6 +8,7 @@ TESTS = {"C02": ("c04_strings_test.go.txt", "TestVerifBoundedC04", "string value
          "C11": ("c11_roundtrip_test.go.txt", "TestVerifBoundedC11", "Deserialize(Serialize(t)) exposes the same typed values, float flags, strings and nesting as t: 10 structured + 400 (quick) / 4000 (thorough) seeded-random documents and 20 ndjson inputs, each also after SetNull and DeleteElems, x 4 compression modes, deserialized by a reused Serializer in another mode into a reused destination and by a fresh Serializer"),
          "C12": ("c12_elements_test.go.txt", "TestVerifBoundedC12", "Object.Parse / Elements.Lookup vs FindKey on 3000 (quick) / 30000 (thorough) generated objects, parsed into a fresh and into a reused *Elements: members in document order, every key looked up finds the member plain traversal finds, no key of the previous object survives in a reused Index"),
          "C16": ("c04_strings_test.go.txt", "TestVerifBoundedC04", "with string copying on, every string read back is unchanged after the caller's input buffer has been overwritten (same generated strings as the C04 stand-in; the copy decision sits in unsafe-pointer glue outside the verifier's reach)"),
+         "C17": ("c11_roundtrip_test.go.txt", "TestVerifBoundedC11", "Deserialize side of C17: every structural word (roots, container starts/ends, NOP skips) of the deserialized tape equals the original's (same generated tapes as the C11 stand-in)"),
          "C18": ("c18_float_test.go.txt", "TestVerifBoundedC18", "appendFloat vs encoding/json on powers of ten +-2ulp, every binade x 4 mantissas, 2000 smallest subnormals, seeded random bit patterns")}
 
 def run(prop, tier, seed, here, repo, env, scratch):
